@@ -15,7 +15,7 @@ def strategy(env):
     tr = st.fixed_dictionaries(dict(blocks=st.lists(st.tuples(pidx, st.integers(0, 9).map(lambda x: x == 0)), min_size=1, max_size=14), rev_before=st.lists(pidx, max_size=3), rev_after=st.lists(pidx, max_size=3),
                                     split=st.sampled_from([0, 0, 3]), same_uuid=st.booleans()))
     return st.fixed_dictionaries(dict(fs=st.integers(0, len(c03.FSCFG) - 1), fmt64=st.booleans(), csum=st.sampled_from([0, 1, 2, 3]), **{'async': st.booleans()}, seq0=st.sampled_from([1, 77, 0xfffffffd]), start_mode=st.integers(0, 1), start=st.integers(0, 5000),
-                                      seed=st.integers(0, 1 << 20), trans=st.lists(tr, min_size=1, max_size=5), fe=st.integers(0, len(FRONTENDS) - 1), mask_seed=st.integers(0, 1 << 20), dmg=st.sampled_from([0, 0, 0, 1]), dmg_at=st.integers(0, 4), tail=st.sampled_from([0, 0, 1, 4, 5, 7])))
+                                      seed=st.integers(0, 1 << 20), trans=st.lists(tr, min_size=1, max_size=5), fe=st.integers(0, len(FRONTENDS) - 1), mask_seed=st.integers(0, 1 << 20), dmg=st.sampled_from([0, 0, 0, 1]), dmg_at=st.integers(0, 4), tail=st.sampled_from([0, 0, 1, 4, 5, 7]), nr_clear=st.sampled_from([0, 0, 0, 1])))
 
 def envinit(widx):
     env = hyp.img_env(widx, variants=('asan',)); env['base'] = {}
@@ -38,6 +38,15 @@ def body(case, env):
     if jbase: jimg = os.path.join(d, 'c04.jnl'); shutil.copyfile(jbase, jimg); classes.append('external-journal')
     try: expected, touched, candidates, poisoned, info = jbd2.write_journal(img, spec, pool, ext=jimg)
     except ValueError as e: return (None, fp, False, None, classes + ['skip:writer'])
+    nr_clear = bool(case.get('nr_clear')) and not jimg
+    if nr_clear:
+        # the filesystem superblock does NOT ask for recovery although the journal holds transactions (what `e2fsck -b <backup>` meets): e2fsck -y runs the journal anyway, and has to make
+        # the request for recovery durable before it starts overwriting blocks
+        with open(img, 'r+b') as f:
+            f.seek(1024); sb = bytearray(f.read(1024)); struct.pack_into('<I', sb, 0x60, struct.unpack_from('<I', sb, 0x60)[0] & ~4)
+            if struct.unpack_from('<I', sb, 0x64)[0] & 0x400: struct.pack_into('<I', sb, 0x3fc, e4ref.crc32c(0xffffffff, bytes(sb[:0x3fc])))
+            f.seek(1024); f.write(sb)
+        classes.append('needs_recovery-flag-clear-at-start')
     # the journal superblock lives on device JD (0 = the filesystem image, 1 = the external journal device) at byte jsb_off
     if jimg: JD = 1; jsb_off = jbd2.ext_journal_sb_block(bs) * bs
     else: JD = 0; fs_, jmap = jbd2.journal_map(img); jsb_off = jmap[0] * bs
@@ -55,6 +64,8 @@ def body(case, env):
     def blk(buf, n): return buf[n * bs:(n + 1) * bs]
     with open(base, 'rb') as f: orig = f.read()
     damaged = info['damage'] != 'none'
+    if nr_clear and all(blk(R, n) == blk(orig, n) for n in touched):
+        classes.append('frontend-declined-to-run-the-journal'); return (None, fp, False, None, classes)
     if case.get('tail'): classes.append('revoke-only-tail:%d' % case['tail'])
     if damaged: classes.append('journal-with-bad-data-checksum')
     for n in pool:
@@ -65,6 +76,7 @@ def body(case, env):
     # ---- trace invariants
     replayed = set(b_ for b_ in touched if blk(R, b_) != blk(orig, b_)) if damaged else set(expected)      # blocks the model says are written by the replay (a logged block that is revoked is not)
     late_replay = []; curs = [bytearray(open(img, 'rb').read()), bytearray(open(jimg, 'rb').read()) if jimg else None]; last_replay = -1; fsync_after_replay = -1; jreset = -1; nrclear = -1
+    flag_seen = not nr_clear
     for i, (op, off, dat, dev) in enumerate(tr):
         if op == 'S':
             if dev == 0 and last_replay >= 0 and fsync_after_replay < last_replay: fsync_after_replay = i      # only an fsync of the filesystem device makes the replayed blocks durable
@@ -77,7 +89,10 @@ def body(case, env):
             if jreset < 0: last_replay = i
             else: late_replay.append(i)
         if jreset < 0 and struct.unpack_from('>I', curs[JD], jsb_off + 0x1c)[0] == 0: jreset = i
-        if nrclear < 0 and not (struct.unpack_from('<I', curs[0], 1024 + 0x60)[0] & 4): nrclear = i
+        nrflag = struct.unpack_from('<I', curs[0], 1024 + 0x60)[0] & 4
+        if nrflag: flag_seen = True
+        if nrclear < 0 and flag_seen and not nrflag: nrclear = i      # (with the flag clear at the start it first has to be set before it can be 'cleared')
+    flag_set_by_tool = nr_clear and flag_seen      # the tool itself raised needs_recovery before replaying (e2fsck does, debugfs jr does not): from then on every crash state must carry it
     prob = []
     if late_replay: prob.append('replayed block(s) written (write #%s) only after the journal superblock was marked empty (write #%d)' % (late_replay[:3], jreset))
     elif replayed and last_replay < 0: prob.append('no write to any replayed block seen in the trace')
@@ -108,6 +123,12 @@ def body(case, env):
                 if i in dropped: continue
                 ff = fj if tr[i][3] else f
                 ff.seek(tr[i][1]); ff.write(tr[i][2])
+        if nr_clear and flag_set_by_tool and k > 0 and any(tr[i][3] == 0 and (tr[i][1] // bs) in replayed for i in writes[:k] if i not in dropped):
+            # a replayed block is on disk: the superblock of this crash state must ask for recovery
+            with open(cw, 'rb') as f:
+                f.seek(1024 + 0x60); flag = struct.unpack('<I', f.read(4))[0] & 4
+                f.seek(jsb_off + 0x1c); pending = struct.unpack('>I', f.read(4))[0] != 0      # the journal of this crash state still holds the transactions
+            if pending and not flag: return (dict(obs, kind='replayed-block-on-disk-but-no-recovery-requested', crash_after_write=k, of_writes=len(writes), dropped=list(dropped)), fp, True, None, classes)
         r2 = recover(ta, fe, cw, jdev=cwj)
         inside = k > 0 and window_lo <= writes[k - 1] and (jreset < 0 or writes[k - 1] <= max(jreset, nrclear))
         if inside: nontrivial_states += 1; env.setdefault('nt', set())
